@@ -1,6 +1,7 @@
 package zverif
 
 import (
+	simrt "github.com/drand/drand/v2/zsimrt"
 	bsimsync "go.etcd.io/bbolt/zsimsync"
 	"bytes"
 	"context"
@@ -141,6 +142,8 @@ func runDaemon1(t *testing.T, sc *DaemonScenario, dump io.Writer) (res RunResult
 			defer UninstallYields()
 			if sc.Crash != nil {
 				bsimsync.YieldHook = e.boltHook(bsimsync.YieldHook)
+				simrt.FileHook = e.fileHook
+				defer func() { simrt.FileHook = nil }()
 			}
 			if err := e.setup(); err != nil {
 				res.HarnessErr = "setup: " + err.Error()
